@@ -2556,6 +2556,9 @@ class SSHConnection(SSHPacketHandler, asyncio.Protocol):
                 result = await cast(Awaitable[bool], result)
 
             if not result:
+                # Options of a key offered in an earlier attempt must not
+                # apply to a user admitted without authentication
+                cast(SSHServerConnection, self).reset_key_and_cert_options()
                 await self.send_userauth_success()
                 return
 
